@@ -48,6 +48,8 @@ impl<'a> TcpListenerAccept<'a> {
                 }
             }
 
+            #[cfg(may_verif)]
+            may_queue::verif::point(may_queue::verif::site::IO_ACCEPT_EAGAIN, 0);
             if self.io_data.io_flag.load(Ordering::Relaxed) != 0 {
                 continue;
             }
@@ -64,7 +66,11 @@ impl EventSource for TcpListenerAccept<'_> {
         let cancel = co_cancel_data(&co);
         let io_data = self.io_data;
         // if there is no timer we don't need to call add_io_timer
+        #[cfg(may_verif)]
+        may_queue::verif::point(may_queue::verif::site::IO_ACCEPT_SUB_ARMED, 0);
         io_data.co.store(co);
+        #[cfg(may_verif)]
+        may_queue::verif::point(may_queue::verif::site::IO_ACCEPT_SUB_STORED, 0);
 
         // there is event happened
         if io_data.io_flag.load(Ordering::Acquire) != 0 {
